@@ -1,4 +1,4 @@
 From Coq Require Import Extraction ExtrOcamlBasic NArith ZArith.
 From Oxia.Selector Require Import Model.
 (* Z.of_N only so that the type z exists for the shared ocaml/conv.ml.in *)
-Extraction "selector_model.ml" ensemble_select single_case swap_shard swap_node round aa_okb nodupb Z.of_N.
+Extraction "selector_model.ml" ensemble_select single_case swap_shard swap_node swap_node_ctl round aa_okb nodupb Z.of_N.
